@@ -1,4 +1,465 @@
 import OtelVerif.Model.C16
-/-! C16 property theorems (stub) -/
+/-!
+# C16 — HTTP body compression round-trips and the decompressed-size limit holds
+
+Property theorems only. Every `decide` over `Compression.*` is re-checked against the tables the translator
+regenerates from `config/confighttp` and `config/configcompression` on every run.
+All theorems quantify over every byte string, every limit, every enabled-decoder list and every compression
+library (`Codec`), lawful where the round trip needs it, arbitrary (hostile) for the limit.
+-/
 namespace OtelVerif.C16
+open OtelVerif.Gen
+
+/-! ## tie obligations over the regenerated tables -/
+
+/-- Every client compression type has a server decoder of the same name, and that decoder reads the format
+the client's writer produces (same library on both sides; `deflate` is zlib on both sides). -/
+theorem C16_client_server_names :
+    ∀ w ∈ Compression.writers, resolve w.1 = some (.lib w.2) := by decide
+
+/-- Every compressed type a configuration can name has a writer (so `ToClient` succeeds), and every
+uncompressed one installs no compressor. -/
+theorem C16_client_types_have_writers :
+    ∀ t ∈ Compression.clientTypes, isCompressed t = true → (assoc Compression.writers t).isSome = true := by decide
+
+/-- The default decoder list enables the identity, every available decoder and every alias; nothing in it is
+without a decoder; every compressed client type is accepted by a default server. -/
+theorem C16_defaults :
+    "" ∈ Compression.defaultCompressionAlgorithms ∧
+    (∀ d ∈ Compression.availableDecoders, d.1 ∈ Compression.defaultCompressionAlgorithms) ∧
+    (∀ a ∈ Compression.aliases, a.1 ∈ Compression.defaultCompressionAlgorithms) ∧
+    (∀ n ∈ Compression.defaultCompressionAlgorithms, decodable n = true) ∧
+    (∀ t ∈ Compression.clientTypes, isCompressed t = true → t ∈ Compression.defaultCompressionAlgorithms) ∧
+    0 < Compression.defaultMaxRequestBodySize := by decide
+
+/-- structural facts the theorems below rest on: the wire-side limit wraps the decompressor, rejection is a
+client error, no alias points at a missing decoder, no-encoding resolves to the identity, and the enable
+loop does not install a nil func for an unknown name. -/
+theorem C16_gen_shape :
+    Compression.outerLimitOnWire = true ∧
+    (400 ≤ Compression.rejectStatus ∧ Compression.rejectStatus < 500) ∧
+    (∀ a ∈ Compression.aliases, avail a.2 ≠ .nilFunc) ∧
+    resolve "" = some .identity ∧
+    Compression.installsNilForUnknown = false := by decide
+
+/-! ## helper lemmas -/
+
+theorem limitRead_le (n : Nat) (s : Stream) : (limitRead n s).data.length ≤ n := by
+  unfold limitRead
+  by_cases h : s.data.length ≤ n
+  · simp [h]
+  · simp only [h, if_false, List.length_take]; omega
+
+theorem limitRead_of_le {n : Nat} {s : Stream} (h : s.data.length ≤ n) : limitRead n s = s := by
+  simp [limitRead, h]
+
+theorem limitRead_of_gt {n : Nat} {s : Stream} (h : n < s.data.length) : limitRead n s = ⟨s.data.take n, false⟩ := by
+  have : ¬ s.data.length ≤ n := by omega
+  simp [limitRead, this]
+
+theorem assoc_mem {β : Type} {l : List (String × β)} {k : String} {v : β} (h : assoc l k = some v) : (k, v) ∈ l := by
+  induction l with
+  | nil => simp [assoc] at h
+  | cons p rest ih =>
+    obtain ⟨k', v'⟩ := p
+    by_cases hk : k = k'
+    · simp [assoc, hk] at h; subst hk; simp [h]
+    · simp only [assoc, hk, if_false] at h; exact List.mem_cons_of_mem _ (ih h)
+
+theorem assoc_enableOne (m : EMap) (dec name : String) :
+    assoc (enableOne m dec) name =
+      if name = dec then (match resolve name with | some e => some e | none => assoc m name) else assoc m name := by
+  by_cases hn : name = dec
+  · subst hn
+    unfold enableOne resolve
+    cases assoc Compression.aliases name with
+    | some to => simp [assoc]
+    | none =>
+      by_cases hc : (Compression.installsNilForUnknown || availHas name) = true
+      · simp [hc, assoc]
+      · simp [hc]
+  · unfold enableOne
+    cases assoc Compression.aliases dec with
+    | some to =>
+      by_cases hc : (Compression.installsNilForUnknown || availHas dec) = true
+      · simp [hc, assoc, hn]
+      · simp [hc, assoc, hn]
+    | none =>
+      by_cases hc : (Compression.installsNilForUnknown || availHas dec) = true
+      · simp [hc, assoc, hn]
+      · simp [hc, hn]
+
+theorem assoc_foldl_enable (l : List String) (m : EMap) (name : String) :
+    assoc (l.foldl enableOne m) name =
+      if name ∈ l then (match resolve name with | some e => some e | none => assoc m name) else assoc m name := by
+  induction l generalizing m with
+  | nil => simp
+  | cons d rest ih =>
+    rw [List.foldl_cons, ih, assoc_enableOne]
+    by_cases h1 : name = d
+    · subst h1
+      cases hr : resolve name <;> simp
+    · by_cases h2 : name ∈ rest
+      · simp [h1, h2]
+      · simp [h1, h2]
+
+/-- what the server's `enabled` map holds under a name: exactly the listed names that resolve -/
+theorem assoc_buildEnabled (l : List String) (name : String) :
+    assoc (buildEnabled l) name = if name ∈ l then resolve name else none := by
+  unfold buildEnabled
+  rw [assoc_foldl_enable]
+  by_cases h : name ∈ l
+  · cases hr : resolve name <;> simp [h, assoc]
+  · simp [h, assoc]
+
+theorem resolve_ne_nil (name : String) : resolve name ≠ some .nilFunc := by
+  have hs := C16_gen_shape
+  unfold resolve
+  cases ha : assoc Compression.aliases name with
+  | some to =>
+    have := hs.2.2.1 (name, to) (assoc_mem ha)
+    simpa using this
+  | none =>
+    rw [hs.2.2.2.2]
+    simp only [Bool.false_or]
+    by_cases hv : availHas name = true
+    · simp only [hv, if_true]
+      unfold availHas at hv
+      unfold avail
+      cases hx : assoc Compression.availableDecoders name with
+      | none => simp [hx] at hv
+      | some o => cases o <;> simp
+    · simp [hv]
+
+theorem resolve_none_of_not_decodable {name : String} (h : decodable name = false) : resolve name = none := by
+  have hs := C16_gen_shape
+  unfold decodable at h
+  simp only [Bool.or_eq_false_iff] at h
+  unfold resolve
+  cases ha : assoc Compression.aliases name with
+  | some to => simp [ha] at h
+  | none => simp [hs.2.2.2.2, h.1]
+
+/-! ## the property's clauses, for all bodies / limits / lists / libraries -/
+
+/-- **Limit.** Whatever the library does with whatever stream (lawful or hostile, intact or cut), a handler
+never reads more than the configured maximum, counted after decompression. -/
+theorem C16_limit (codec : String → Codec) (cfg : Cfg) (r : Request) (s : Stream)
+    (h : serve codec cfg r = .handled s) : s.data.length ≤ cfg.limit := by
+  have hs := C16_gen_shape
+  unfold serve at h
+  rw [hs.1] at h
+  simp only [if_true] at h
+  cases he : assoc (buildEnabled cfg.enabled) r.encoding with
+  | none => simp [he] at h
+  | some e =>
+    cases e with
+    | nilFunc => simp [he] at h
+    | identity =>
+      simp only [he, Outcome.handled.injEq] at h
+      rw [← h]; exact limitRead_le _ _
+    | lib l =>
+      simp only [he] at h
+      cases hd : (codec l).dec (limitRead cfg.limit r.wire) with
+      | none => simp [hd] at h
+      | some s' =>
+        simp only [hd, Outcome.handled.injEq] at h
+        rw [← h]; exact limitRead_le _ _
+
+/-- **Reject.** An encoding that is not listed, or is listed but has no decoder behind it, is answered with
+the client-error status before the handler runs (`Outcome.rejected` = base handler not invoked). -/
+theorem C16_reject (codec : String → Codec) (cfg : Cfg) (r : Request)
+    (h : r.encoding ∉ cfg.enabled ∨ decodable r.encoding = false) :
+    serve codec cfg r = .rejected Compression.rejectStatus ∧
+      400 ≤ Compression.rejectStatus ∧ Compression.rejectStatus < 500 := by
+  refine ⟨?_, C16_gen_shape.2.1⟩
+  have he : assoc (buildEnabled cfg.enabled) r.encoding = none := by
+    rw [assoc_buildEnabled]
+    cases h with
+    | inl h => simp [h]
+    | inr h => simp [resolve_none_of_not_decodable h]
+  unfold serve
+  simp [he]
+
+/-- No request can make the server call a nil decoder. (Fails to build on a tree whose enable loop stores
+`availableDecoders[name]` unconditionally: `Compression.installsNilForUnknown = true`.) -/
+theorem C16_no_panic (codec : String → Codec) (cfg : Cfg) (r : Request) : serve codec cfg r ≠ .panicked := by
+  unfold serve
+  cases he : assoc (buildEnabled cfg.enabled) r.encoding with
+  | none => simp
+  | some e =>
+    cases e with
+    | nilFunc =>
+      rw [assoc_buildEnabled] at he
+      by_cases hm : r.encoding ∈ cfg.enabled
+      · simp only [hm, if_true] at he
+        exact absurd he (resolve_ne_nil _)
+      · simp [hm] at he
+    | identity => simp
+    | lib l => simp only []; split <;> simp
+
+/-- the wire a compressing client produces for `b`, as a request -/
+def compressedRequest (codec : String → Codec) (t l : String) (b : Bytes) : Request := ⟨t, ⟨(codec l).enc b, true⟩⟩
+
+/-- The client: a compressed type with a writer and no preset header sends `enc b` under its own name. -/
+theorem C16_client_compresses (codec : String → Codec) (t l : String) (b : Bytes)
+    (ht : isCompressed t = true) (hw : assoc Compression.writers t = some l) :
+    clientSend codec t "" b = some (compressedRequest codec t l b) := by
+  simp [clientSend, ht, hw, compressedRequest]
+
+/-- The client never re-encodes a body that already carries a `Content-Encoding`, and a client without
+compression sends the body as is. -/
+theorem C16_client_passthrough (codec : String → Codec) (t hdr : String) (b : Bytes)
+    (ht : t ∈ Compression.clientTypes) (h : hdr ≠ "" ∨ isCompressed t = false) :
+    clientSend codec t hdr b = some ⟨hdr, ⟨b, true⟩⟩ := by
+  unfold clientSend
+  by_cases hc : isCompressed t = true
+  · have hw := C16_client_types_have_writers t ht hc
+    cases hx : assoc Compression.writers t with
+    | none => simp [hx] at hw
+    | some l =>
+      cases h with
+      | inl h => simp [hc, h]
+      | inr h => simp [hc] at h
+  · simp [hc]
+
+/-- server side of the round trip, for an intact lawful stream under an enabled name -/
+theorem serve_lawful (codec : String → Codec) (cfg : Cfg) (name l : String) (b : Bytes)
+    (hlaw : (codec l).Lawful) (hres : resolve name = some (.lib l)) (hen : name ∈ cfg.enabled)
+    (hwire : ((codec l).enc b).length ≤ cfg.limit) :
+    serve codec cfg ⟨name, ⟨(codec l).enc b, true⟩⟩ = .handled (limitRead cfg.limit ⟨b, true⟩) := by
+  have he : assoc (buildEnabled cfg.enabled) name = some (.lib l) := by
+    rw [assoc_buildEnabled]; simp [hen, hres]
+  unfold serve
+  rw [C16_gen_shape.1]
+  simp only [if_true, he]
+  rw [limitRead_of_le (s := ⟨(codec l).enc b, true⟩) hwire, hlaw b]
+
+/-- The full round-trip statement: every body within the limit, every client type the server lists. -/
+def C16_roundtrip_full : Prop :=
+  ∀ (codec : String → Codec), (∀ l, (codec l).Lawful) →
+  ∀ (cfg : Cfg) (t l : String) (b : Bytes),
+    isCompressed t = true → assoc Compression.writers t = some l → t ∈ cfg.enabled →
+    b.length ≤ cfg.limit →
+    (clientSend codec t "" b).map (serve codec cfg) = some (.handled ⟨b, true⟩)
+
+/-- **Round trip** (partial: additionally the *compressed* form must fit the limit, because
+`maxRequestBodySizeInterceptor` applies the same limit to the wire before decompression). -/
+theorem C16_roundtrip_partial (codec : String → Codec) (hlaw : ∀ l, (codec l).Lawful)
+    (cfg : Cfg) (t l : String) (b : Bytes)
+    (ht : isCompressed t = true) (hw : assoc Compression.writers t = some l) (hen : t ∈ cfg.enabled)
+    (hb : b.length ≤ cfg.limit) (hwire : ((codec l).enc b).length ≤ cfg.limit) :
+    (clientSend codec t "" b).map (serve codec cfg) = some (.handled ⟨b, true⟩) := by
+  rw [C16_client_compresses codec t l b ht hw]
+  have hres := C16_client_server_names (t, l) (assoc_mem hw)
+  simp only [Option.map_some, compressedRequest]
+  rw [serve_lawful codec cfg t l b (hlaw l) hres hen hwire, limitRead_of_le (s := ⟨b, true⟩) hb]
+
+/-- a lawful library whose output is one byte longer than its input -/
+def padCodec : Codec :=
+  { enc := fun b => 0 :: b,
+    dec := fun s => match s.data with
+      | [] => none
+      | _ :: d => some ⟨d, s.ok⟩ }
+
+theorem padCodec_lawful : padCodec.Lawful := by intro b; rfl
+
+/-- The full statement is false for the code as it is: a body that fits the limit exactly but whose
+compressed form does not is cut on the wire (replayed on the real code: corpus case 1, gzip, 1000
+incompressible bytes, limit 1000). -/
+theorem C16_roundtrip_full_fails : ¬ C16_roundtrip_full := by
+  intro h
+  have := h (fun _ => padCodec) (fun _ => padCodec_lawful) ⟨["gzip"], 1⟩ "gzip" "gzip" [7]
+    (by decide) (by decide) (by decide) (by decide)
+  revert this
+  decide
+
+/-- **Oversize.** A body beyond the limit whose compressed form fits (zip-bomb shape): the handler gets
+exactly the first `limit` bytes and then an error — never more. -/
+theorem C16_limit_exact (codec : String → Codec) (hlaw : ∀ l, (codec l).Lawful)
+    (cfg : Cfg) (t l : String) (b : Bytes)
+    (ht : isCompressed t = true) (hw : assoc Compression.writers t = some l) (hen : t ∈ cfg.enabled)
+    (hb : cfg.limit < b.length) (hwire : ((codec l).enc b).length ≤ cfg.limit) :
+    (clientSend codec t "" b).map (serve codec cfg) = some (.handled ⟨b.take cfg.limit, false⟩) := by
+  rw [C16_client_compresses codec t l b ht hw]
+  have hres := C16_client_server_names (t, l) (assoc_mem hw)
+  simp only [Option.map_some, compressedRequest]
+  rw [serve_lawful codec cfg t l b (hlaw l) hres hen hwire, limitRead_of_gt (s := ⟨b, true⟩) hb]
+
+/-- The full identity statement: a request without content encoding passes through untouched, whatever the list. -/
+def C16_identity_full : Prop :=
+  ∀ (codec : String → Codec) (cfg : Cfg) (t : String) (b : Bytes),
+    t ∈ Compression.clientTypes → isCompressed t = false → b.length ≤ cfg.limit →
+    (clientSend codec t "" b).map (serve codec cfg) = some (.handled ⟨b, true⟩)
+
+/-- **Identity** (partial: the decoder list must contain `""`, which the default list does). -/
+theorem C16_identity_partial (codec : String → Codec) (cfg : Cfg) (t : String) (b : Bytes)
+    (ht : t ∈ Compression.clientTypes) (hc : isCompressed t = false) (hen : "" ∈ cfg.enabled)
+    (hb : b.length ≤ cfg.limit) :
+    (clientSend codec t "" b).map (serve codec cfg) = some (.handled ⟨b, true⟩) := by
+  rw [C16_client_passthrough codec t "" b ht (Or.inr hc)]
+  have he : assoc (buildEnabled cfg.enabled) "" = some .identity := by
+    rw [assoc_buildEnabled]; simp [hen, C16_gen_shape.2.2.2.1]
+  simp only [Option.map_some]
+  unfold serve
+  rw [C16_gen_shape.1]
+  simp only [if_true, he]
+  rw [limitRead_of_le (s := ⟨b, true⟩) hb]
+
+/-- The full statement is false for the code as it is: with `compression_algorithms: [gzip]` an unencoded
+request is rejected (replayed on the real code: corpus case 0). -/
+theorem C16_identity_full_fails : ¬ C16_identity_full := by
+  intro h
+  have := h (fun _ => padCodec) ⟨["gzip"], 10⟩ "none" [1] (by decide) (by decide) (by decide)
+  revert this
+  decide
+
+/-- an unencoded body beyond the limit is cut at the limit as well (the wire-side wrapper) -/
+theorem C16_identity_oversize (codec : String → Codec) (cfg : Cfg) (b : Bytes)
+    (hen : "" ∈ cfg.enabled) (hb : cfg.limit < b.length) :
+    serve codec cfg ⟨"", ⟨b, true⟩⟩ = .handled ⟨b.take cfg.limit, false⟩ := by
+  have he : assoc (buildEnabled cfg.enabled) "" = some .identity := by
+    rw [assoc_buildEnabled]; simp [hen, C16_gen_shape.2.2.2.1]
+  unfold serve
+  rw [C16_gen_shape.1]
+  simp only [if_true, he]
+  rw [limitRead_of_gt (s := ⟨b, true⟩) hb]
+
+/-- defaults of `ToServer`: an absent list is the default list, a non-positive size the default size; so a
+default server round-trips every client type (instance of the hypotheses above, see `C16_defaults`). -/
+theorem C16_effective_defaults (mx : Int) (hmx : mx ≤ 0) :
+    (ServerConfig.mk none mx).eff = ⟨Compression.defaultCompressionAlgorithms, Compression.defaultMaxRequestBodySize⟩ := by
+  simp [ServerConfig.eff, hmx]
+
+/-! ## the search oracle is sound, and the model satisfies it -/
+
+/-- `exchangeCheck` (evaluated by the driver on what the REAL server showed) accepts only exchanges on which
+the property holds. -/
+theorem C16_check_sound (x : Exchange) (h : exchangeCheck x = none) : PropOn x := by
+  unfold exchangeCheck at h
+  unfold PropOn
+  cases ho : x.outcome with
+  | panicked =>
+    rw [ho] at h
+    simp only at h
+    split at h <;> cases h
+  | rejected st =>
+    rw [ho] at h
+    simp only at h
+    refine ⟨(by intro s hs; cases hs), ?_, ?_⟩
+    · intro hon
+      simp only [hon] at h
+      by_cases hst : (decide (400 ≤ st) && decide (st < 500)) = true
+      · simp only [Bool.and_eq_true, decide_eq_true_eq] at hst
+        exact ⟨st, rfl, hst.1, hst.2⟩
+      · simp [hst] at h
+    · intro hon b hb hlen
+      simp only [hon, if_true, hb] at h
+      simp only [hlen, if_true] at h
+      cases h
+  | handled s =>
+    rw [ho] at h
+    simp only at h
+    by_cases h1 : x.limit < s.data.length
+    · simp [h1] at h
+    · simp only [h1, if_false] at h
+      by_cases hon : x.on = true
+      · simp only [hon, Bool.not_true] at h
+        refine ⟨?_, ?_, ?_⟩
+        · intro s' hs'; cases hs'; omega
+        · intro hoff; rw [hon] at hoff; cases hoff
+        · intro _ b hb hlen
+          simp only [hb] at h
+          by_cases hne : (decide (b.length ≤ x.limit) && s != ⟨b, true⟩) = true
+          · simp [hne] at h
+          · simp only [Bool.and_eq_true, decide_eq_true_eq, not_and, bne_iff_ne, ne_eq, Decidable.not_not] at hne
+            rw [hne hlen]
+      · have hoff : x.on = false := by simpa using hon
+        simp [hoff] at h
+
+/-- the exchange the model predicts for a request -/
+def modelExchange (codec : String → Codec) (cfg : Cfg) (rq : Request) (sent : Option Bytes) : Exchange :=
+  { enabled := cfg.enabled, limit := cfg.limit, encoding := rq.encoding, sent := sent,
+    wireLen := rq.wire.data.length, outcome := serve codec cfg rq }
+
+/-- The whole property on the model, for every exchange whose `sent` is what the wire lawfully encodes
+(partial: identity needs `""` in the list; the wire must fit the limit — the two recorded findings). -/
+theorem C16_model_satisfies_partial (codec : String → Codec) (hlaw : ∀ l, (codec l).Lawful)
+    (cfg : Cfg) (rq : Request) (sent : Option Bytes)
+    (hsent : ∀ b, sent = some b →
+      (rq.encoding = "" ∧ rq.wire = ⟨b, true⟩) ∨
+      (∃ l, resolve rq.encoding = some (.lib l) ∧ rq.wire = ⟨(codec l).enc b, true⟩))
+    (hid : rq.encoding = "" → "" ∈ cfg.enabled)
+    (hwire : rq.wire.data.length ≤ cfg.limit) :
+    PropOn (modelExchange codec cfg rq sent) := by
+  unfold PropOn modelExchange
+  refine ⟨fun s hs => C16_limit codec cfg rq s hs, ?_, ?_⟩
+  · intro hoff
+    simp only [Exchange.on, Bool.or_eq_false_iff, Bool.and_eq_false_iff, beq_eq_false_iff_ne, ne_eq] at hoff
+    have hr := C16_reject codec cfg rq (by
+      cases hoff.2 with
+      | inl h => left; simpa using h
+      | inr h => right; exact h)
+    exact ⟨_, hr.1, hr.2.1, hr.2.2⟩
+  · intro hon b hb hlen
+    simp only at hb hlen ⊢
+    cases hsent b hb with
+    | inl h =>
+      obtain ⟨he, hw⟩ := h
+      have hen := hid he
+      have hbl : b.length ≤ cfg.limit := hlen
+      have key : serve codec cfg ⟨"", ⟨b, true⟩⟩ = .handled ⟨b, true⟩ := by
+        have he' : assoc (buildEnabled cfg.enabled) "" = some .identity := by
+          rw [assoc_buildEnabled]; simp [hen, C16_gen_shape.2.2.2.1]
+        unfold serve
+        rw [C16_gen_shape.1]
+        simp only [if_true, he']
+        rw [limitRead_of_le (s := ⟨b, true⟩) hbl]
+      have : rq = ⟨"", ⟨b, true⟩⟩ := by cases rq; simp_all
+      rw [this]; exact key
+    | inr h =>
+      obtain ⟨l, hres, hw⟩ := h
+      have hne : rq.encoding ≠ "" := by
+        intro he
+        rw [he, C16_gen_shape.2.2.2.1] at hres
+        cases hres
+      have hen : rq.encoding ∈ cfg.enabled := by
+        simp only [Exchange.on, Bool.or_eq_true, Bool.and_eq_true, beq_iff_eq] at hon
+        cases hon with
+        | inl h => exact absurd h hne
+        | inr h => simpa using h.1
+      have hwl : ((codec l).enc b).length ≤ cfg.limit := by rw [hw] at hwire; exact hwire
+      have : rq = ⟨rq.encoding, ⟨(codec l).enc b, true⟩⟩ := by cases rq; simp_all
+      rw [this, serve_lawful codec cfg rq.encoding l b (hlaw l) hres hen hwl,
+        limitRead_of_le (s := ⟨b, true⟩) hlen]
+
+/-! ## non-vacuity -/
+
+/-- a lawful library exists (so the round-trip theorems are not vacuous), and the hypotheses of
+`C16_roundtrip_partial` are met by a concrete configuration -/
+example : (clientSend (fun _ => padCodec) "gzip" "" [1, 2, 3]).map (serve (fun _ => padCodec) ⟨["", "gzip"], 10⟩)
+    = some (.handled ⟨[1, 2, 3], true⟩) :=
+  C16_roundtrip_partial (fun _ => padCodec) (fun _ => padCodec_lawful) ⟨["", "gzip"], 10⟩ "gzip" "gzip" [1, 2, 3]
+    (by decide) (by decide) (by decide) (by decide) (by decide)
+
+/-- zip-bomb shape on the model: a hostile library that expands one byte into a hundred is still cut at the limit -/
+example : serve (fun _ => { enc := id, dec := fun _ => some ⟨List.replicate 100 0, true⟩ }) ⟨["zstd"], 7⟩ ⟨"zstd", ⟨[1], true⟩⟩
+    = .handled ⟨List.replicate 7 0, false⟩ := by decide
+
+/-- rejection is reachable: `deflate` not listed -/
+example : serve (fun _ => padCodec) ⟨["", "gzip"], 10⟩ ⟨"deflate", ⟨[0, 1], true⟩⟩ = .rejected 400 := by decide
+
+/-- `deflate` listed: served by the zlib decoder -/
+example : serve (fun l => if l = "zlib" then padCodec else ⟨id, fun _ => none⟩) ⟨["deflate"], 10⟩ ⟨"deflate", ⟨[0, 1], true⟩⟩
+    = .handled ⟨[1], true⟩ := by decide
+
+/-- the oracle rejects the three reproduced failures with distinct signatures -/
+example : exchangeCheck ⟨["gzip"], 1000, "", some [1], 1, .rejected 400⟩ = some "C16/decoder-list-without-identity" := by decide
+example : exchangeCheck ⟨["gzip"], 2, "gzip", some [1, 2], 3, .handled ⟨[1], false⟩⟩
+    = some "C16/roundtrip/wire-exceeds-limit-body-within-limit" := by decide
+example : exchangeCheck ⟨["", "br"], 1000, "br", none, 3, .panicked⟩
+    = some "C16/reject/unknown-name-in-list-nil-decoder-panic" := by decide
+example : exchangeCheck ⟨["", "gzip"], 3, "gzip", none, 3, .handled ⟨[1, 2, 3, 4], false⟩⟩
+    = some "C16/limit/handler-read-beyond-limit" := by decide
+
 end OtelVerif.C16
